@@ -243,6 +243,67 @@ def main():
                                        "problems": probs, "site": {"oracle": "operator-history"}})
     finally:
         onp.seterr(**old_err)
+    # ---- values of user-defined subclasses of the supported types (array classes, float / tuple / list / dict
+    #      subclasses): the outcome of a call - value or refusal - is the one a FRESH interpreter gives, whatever
+    #      instances of the same class were seen earlier in this process (registries must not learn from values) ----
+    import subprocess
+    SUBPROG = r"""
+import sys, json, warnings
+warnings.simplefilter("ignore")
+import numpy as onp
+import autograd.numpy as anp
+from autograd import grad, deriv, elementwise_grad, make_jvp
+from collections import namedtuple
+class Signal(onp.ndarray): pass
+class Money(float): pass
+Pt = namedtuple("Pt", "a b")
+class Cfg(dict): pass
+class Vec(list): pass
+def mk(kind):
+    if kind == "array-real": return onp.array([1.0, 2.0, 3.0]).view(Signal)
+    if kind == "array-complex": return (onp.array([0.3, -1.2, 0.5]) + 1j * onp.array([1.0, 0.2, -0.7])).view(Signal)
+    if kind == "array-2d": return onp.arange(4.0).reshape(2, 2).view(Signal)
+    if kind == "float-sub": return Money(2.5)
+    if kind == "namedtuple": return Pt(onp.array([1.0, 2.0]), 3.0)
+    if kind == "dict-sub": return Cfg(a=onp.array([1.0, 2.0]), b=3.0)
+    if kind == "list-sub": return Vec([onp.array([1.0, 2.0]), 3.0])
+def call(kind):
+    x = mk(kind)
+    outs = []
+    fs = {"array-real": [lambda: grad(lambda z: anp.sum(z * z))(x), lambda: elementwise_grad(lambda z: z * 2.0)(x)],
+          "array-complex": [lambda: deriv(lambda z: z * z)(x), lambda: elementwise_grad(lambda z: z * 2.0)(x), lambda: make_jvp(lambda z: anp.real(z * z))(x)(x)[1]],
+          "array-2d": [lambda: grad(lambda z: anp.sum(z @ z))(x)],
+          "float-sub": [lambda: grad(lambda z: z * z)(x)],
+          "namedtuple": [lambda: grad(lambda p: anp.sum(p[0]) * p[1])(x)],
+          "dict-sub": [lambda: grad(lambda p: anp.sum(p["a"]) * p["b"])(x)],
+          "list-sub": [lambda: grad(lambda p: anp.sum(p[0]) * p[1])(x)]}[kind]
+    for f in fs:
+        try:
+            r = f()
+            outs.append(json.dumps(r, default=lambda a: [type(a).__name__, str(onp.asarray(a).dtype), onp.asarray(a).tolist() if not onp.iscomplexobj(a) else str(onp.asarray(a).tolist())]))
+        except Exception as e:
+            outs.append("raised " + type(e).__name__)
+    return outs
+hist = sys.argv[1].split(",") if sys.argv[1] else []
+for h in hist:
+    call(h)
+print(json.dumps(call(sys.argv[2])))
+"""
+    kinds = ["array-real", "array-complex", "array-2d", "float-sub", "namedtuple", "dict-sub", "list-sub"]
+
+    def sub(hist, kind):
+        r = subprocess.run([sys.executable, "-c", SUBPROG, ",".join(hist), kind], capture_output=True, text=True, timeout=120)
+        return r.stdout.strip().splitlines()[-1] if r.returncode == 0 and r.stdout.strip() else "process failed: " + r.stderr[-300:]
+    fresh = {k: sub([], k) for k in kinds}
+    for k in kinds:
+        for hist in ([k2 for k2 in kinds if k2 != k], [k2 for k2 in reversed(kinds) if k2 != k][:2], ["array-real", "array-real"]):
+            out["n"] += 1
+            out["keys"].append("subclass-history|%s|%s" % (k, "+".join(hist)))
+            got = sub(hist, k)
+            if got != fresh[k]:
+                out["bad"].append({"operator": "differentiating a value of a user subclass (%s)" % k, "fault": "after earlier calls on %s" % hist,
+                                   "problems": ["fresh interpreter: %s ; after the history: %s" % (fresh[k][:300], got[:300])], "site": {"oracle": "operator-history"}})
+                break
     repeat_outcomes("at the end, after every history above")
     # ---- a tracer that outlived its differentiation, used later as a plain constant ----
     for mode in ("rev", "fwd"):
